@@ -85,10 +85,10 @@ Exprs == Ranges0 \cup VecAggs \cup BinOps \cup {VecE(0, 1), VecE(5, 2)} \cup Mod
 Layouts == { [ws |-> 0, raw |-> FALSE, paren |-> FALSE, grpPre |-> FALSE, durComp |-> FALSE], [ws |-> 1, raw |-> TRUE, paren |-> FALSE, grpPre |-> TRUE, durComp |-> TRUE],
              [ws |-> 2, raw |-> FALSE, paren |-> TRUE, grpPre |-> FALSE, durComp |-> TRUE], [ws |-> 3, raw |-> TRUE, paren |-> TRUE, grpPre |-> TRUE, durComp |-> FALSE],
              [ws |-> 4, raw |-> FALSE, paren |-> FALSE, grpPre |-> TRUE, durComp |-> FALSE], [ws |-> 4, raw |-> TRUE, paren |-> TRUE, grpPre |-> FALSE, durComp |-> TRUE] }
-LogMuts == {"drop_close_brace", "double_pipe", "trailing_op", "trailing_junk", "bad_regex", "bad_label_regex", "unwrap_in_log", "dup_label_format", "dup_label_format_mixed", "dup_label_format_mixed2", "dup_label_format_tmpl", "empty_selector_matcher"}
+LogMuts == {"upper_stage", "drop_close_brace", "double_pipe", "trailing_op", "trailing_junk", "bad_regex", "bad_label_regex", "unwrap_in_log", "dup_label_format", "dup_label_format_mixed", "dup_label_format_mixed2", "dup_label_format_tmpl", "empty_selector_matcher"}
 MetricMuts == {"drop_close_brace", "drop_close_paren", "drop_close_bracket", "trailing_junk", "empty_selector_matcher", "quantile_no_param", "param_not_allowed", "topk_no_param",
                "topk_zero", "sort_grouping", "range_grouping", "unwrap_missing", "unwrap_forbidden", "missing_range",
-               "lrepl_bad_regex", "lrepl_three_args", "lrepl_bare_arg", "on_without_labels", "group_without_on"}
+               "lrepl_bad_regex", "lrepl_three_args", "lrepl_bare_arg", "on_without_labels", "group_without_on", "upper_keyword"}
 
 VARIABLES kind, sel, stages, expr, pc
 vars == <<kind, sel, stages, expr, pc>>
